@@ -5,6 +5,7 @@ import r_transform
 import r_sync
 import r_txn
 import r_taskdb
+import r_storage
 
 PROPS = {}
 
@@ -35,7 +36,7 @@ PROPS["C01"] = {
     "assumptions": [],
 }
 PROPS["C03"] = {
-    "rules": [r_transform.rule_TP1, r_transform.rule_WIN],
+    "rules": [r_transform.rule_TP1, r_transform.rule_WIN, r_sync.rule_S4, r_sync.rule_S9, r_sync.rule_S10, r_sync.rule_S2],
     "explanation": "TR/WIN: the extracted transform table yields the documented conflict winners (final-state oracle), survivors are field-for-field their operand, and the winner does not depend on argument order for strictly ordered timestamps; exhaustive over the abstract space.",
     "not_decided": "causally ordered overrides and three-replica orderings (consequences of sequential application over a history)",
     "assumptions": [],
@@ -53,8 +54,8 @@ PROPS["C02"] = {
     "assumptions": [],
 }
 PROPS["C12"] = {
-    "rules": [r_sync.rule_N1, r_sync.rule_N2],
-    "explanation": "N1 snapshot only with nothing pending and labelled with the accepted id; N2 urgency gate table and SnapshotUrgency declaration order.",
+    "rules": [r_sync.rule_N1, r_sync.rule_N2, r_storage.rule_N3, r_storage.rule_N4, r_storage.rule_N5],
+    "explanation": "N1 snapshot only with nothing pending and labelled with the accepted id; N2 urgency gate table and SnapshotUrgency declaration order; N3 both is_empty defaults check tasks, base version and unsynced operations, and snapshots are fetched/applied only on that outcome; N4 apply_snapshot writes every decoded task and sets the base version; N5 codec pairing.",
     "not_decided": "equality of snapshot content with the chain replay for all histories and Unicode contents",
     "assumptions": [],
 }
@@ -81,6 +82,18 @@ PROPS["C17"] = {
     "explanation": "T1 for all four mutating TaskDb actions: an action split over two storage transactions can interleave with another handle.",
     "not_decided": "the schedule-level outcome: it is SQLite's locking that serialises handles and processes",
     "assumptions": ["SQLite's transaction isolation"],
+}
+PROPS["C06"] = {
+    "rules": [lambda F, R: r_txn.rule_T1(F, R), r_sync.rule_T1_sync, r_storage.rule_D, r_storage.rule_Q1],
+    "explanation": "T1 for all four mutating actions; D2 who-may-commit (actor commits only in its Commit arm, via Q1's actor table; rusqlite commit only in the transaction's commit; no set_drop_behavior/unchecked_transaction); D3 one rusqlite transaction per StorageTxn and every statement through it; D4 the proxy returns the actor's commit reply; D5 crash-safe journal mode.",
+    "not_decided": "what SQLite does at a process kill; durability of an acknowledged commit (SQLite + OS); the per-storage-call crash sweep",
+    "assumptions": ["rusqlite's default drop behaviour is rollback", "SQLite's atomic commit in WAL/rollback-journal modes"],
+}
+PROPS["C16"] = {
+    "rules": [r_storage.rule_Q1, r_storage.rule_Q2, r_storage.rule_Q3, r_storage.rule_N3],
+    "explanation": "Q1 proxy/actor tables agree (21 methods x 22 messages, crossed wires compile); Q2 every modifying SQL statement and commit dominated by check_write_access, schema upgrade only read-write; Q3 in-memory add_to_working_set returns the stored index; N3 sibling is_empty defaults agree.",
+    "not_decided": "equality of results for all call sequences, persistence across reopen, legacy-schema upgrades as data transformations",
+    "assumptions": [],
 }
 # reasons shown in MANIFEST.not_applicable for properties not (yet) claimed
 NOT_YET = {}
